@@ -187,7 +187,8 @@ _PROGRESS = {"on": False}
 def _install_progress_monitor():
     """Bounded progress for the deterministic signer's retry loop, in logical steps (no clock): the library asks `rfc6979.generate_k` for the
     next nonce candidate each time a candidate gave r = 0 or s = 0.  With a 1/n chance per candidate, more than 300 consecutive requests
-    for the same (order, key, data, extra entropy) on one thread mean the loop is not advancing; the monitor then raises NoProgress from
+    for the same (order, key, data, extra entropy) on one thread since the last request with retry_gen = 0 (the start of a signing call)
+    mean the loop is not advancing; the monitor then raises NoProgress from
     inside that request, which surfaces through the signing call to whichever oracle made it (a signer that raises on valid input).
     The wrapper passes every call through unchanged and keeps its state per thread."""
     if _PROGRESS["on"]:
@@ -207,7 +208,9 @@ def _install_progress_monitor():
             key = (order, secexp, bytes(data), bytes(extra_entropy)) if sys._getframe(1).f_code.co_filename.replace(os.sep, "/").endswith("/ecdsa/keys.py") else None
         except Exception:
             key = None
-        if key is not None and getattr(tl, "key", None) == key:
+        # (a signing call starts its requests at retry_gen = 0: that, or another key / data, starts a new count - repeated signing calls
+        # with the same arguments are not a loop)
+        if key is not None and getattr(tl, "key", None) == key and retry_gen != 0:
             tl.count += 1
             if tl.count > 300:
                 tl.count = 0
